@@ -19,8 +19,47 @@
    The invariant for the proof is now: m_reissue[w] = (ops0, n) iff w holds an uncompleted task whose operation list is
    ops0 and whose t_retry is n > 0 ... precisely: an entry (ops0, n) of w means w holds a task with exactly these operations
    and t_retry = n; a worker that holds a task and has no entry has t_retry = 0 (docs/areas/Sched-retry-proofs.md). *)
-From VF Require Import Sched.ProofsRetry1 Sched.ProofsRetry2 Sched.ProofsRetry3 Sched.Spec Sched.Corr.
+From VF Require Import Sched.ProofsRetry1 Sched.ProofsRetry2 Sched.ProofsRetry3 Sched.ProofsRetry4 Sched.ProofsRetry5 Sched.Spec Sched.Corr.
 Open Scope Z_scope.
+
+(* ---- building blocks that ARE proved (all closed under the global context) ----------------------------------------------------------------------- *)
+
+(* model side, every state and every event (no reachability, no hypothesis): one event leaves the retry counter of every task
+   unchanged, or resets it to 0 (assignment / new task), or counts one re-request (S of the old value; 1 if the task was
+   also reset within the event); only a Synchronize event can count *)
+Theorem retry_counter_step : forall s eh T,
+  let s' := fst (step s eh) in
+  t_retry (get_task s' T) = t_retry (get_task s T) \/ t_retry (get_task s' T) = 0%nat \/
+  t_retry (get_task s' T) = S (t_retry (get_task s T)) \/ t_retry (get_task s' T) = 1%nat.
+Proof. exact retry_counter_step. Qed.
+Print Assumptions retry_counter_step.
+
+Theorem retry_counter_step_nonsync : forall s eh T, (forall c a t, fst eh <> EStartSync c a t) ->
+  let s' := fst (step s eh) in
+  t_retry (get_task s' T) = t_retry (get_task s T) \/ t_retry (get_task s' T) = 0%nat.
+Proof.
+  intros s eh T H. apply retry_counter_step_nonsync. destruct (fst eh) eqn:E; try reflexivity. exfalso. exact (H _ _ _ eq_refl).
+Qed.
+Print Assumptions retry_counter_step_nonsync.
+
+(* model side, all event lists, no hypothesis: the counter never exceeds WorkerTaskRetryCount (so the scheduler never tells a
+   worker again beyond the limit: the model-side content of position 14) *)
+Theorem retry_counter_bounded : forall cfg t0 evs T,
+  (t_retry (get_task (fst (run (init cfg t0) evs)) T) <= cf_retry_count cfg)%nat.
+Proof. exact retry_counter_bounded. Qed.
+Print Assumptions retry_counter_bounded.
+
+(* monitor side: positions 14 and 15 and the next m_reissue are functions of m_reissue before the event, the two dumps, the
+   event and its observations: pm_clear, rereq, retry_step, pc_early, pm_follow of ProofsMon1.v applied to the monitor state
+   before the event; nothing else in p_step touches m_reissue *)
+Theorem retry_positions_isolated : forall cfg t0 m pre e o post,
+  let mc := pm_clear pre e m in
+  let rr := rereq pre e mc in
+  nth 14 (p_components cfg t0 m pre e o post) ""%string = snd (retry_step cfg post e o rr mc) /\
+  nth 15 (p_components cfg t0 m pre e o post) ""%string = pc_early cfg pre post rr /\
+  m_reissue (pm_final cfg pre post e o m) = m_reissue (pm_follow post (fst (retry_step cfg post e o rr mc))).
+Proof. exact retry_positions_isolated. Qed.
+Print Assumptions retry_positions_isolated.
 
 (* ---- regression (first round): a task retried after a failure report and handed back to the reporting worker ----
    rw5_evs, rw6_evs: retry count 1; told, one re-request, failure report, the learner asks for the retry and the reporting
@@ -62,3 +101,8 @@ Example retry_bookkeeping_small_histories :
   rt_count false [] 3 = [0; 0; 0]%nat /\ rt_count true [] 3 = [0; 0; 0]%nat /\
   rt_count false [0; 4; 8; 9]%nat 3 = [0; 22; 1]%nat /\ rt_count true [0; 4; 8; 9]%nat 3 = [0; 0; 0]%nat.
 Proof. exact rt_search_3. Qed.
+
+(* the same small histories against the real components (positions 14 / 15 of Spec.p_step_all): none rejected *)
+Example retry_positions_accept_small_histories :
+  rt_count_real [] 3 = [0; 0; 0]%nat /\ rt_count_real [0; 4; 8; 9]%nat 3 = [0; 0; 0]%nat.
+Proof. exact rt_search_real_3. Qed.
